@@ -207,11 +207,17 @@ def replay(chk, behs, equal_mags, rng):
                     o = impl.outcome(f, obj, r_)
                     if o[0] != "ok" or bool(o[1]) != exp[sym]:
                         chk.violation("C13.ComparisonNotByMagnitude", {**k, "sym": sym}, {**det, "got": repr(o[1]), "want": exp[sym]})
-                    # against plain numbers: the magnitude in the base unit
-                    for num, w in ((raw0[op["r"]], exp[sym]),):
+                    # against plain numbers: the magnitude in the base unit - floats, ints where whole, and in both operand orders
+                    nums = [raw0[op["r"]]] + ([int(raw0[op["r"]])] if float(raw0[op["r"]]).is_integer() and abs(raw0[op["r"]]) < 2 ** 53 else [])
+                    rexp = {"==": want == 0, "!=": want != 0, "<": want > 0, "<=": want >= 0, ">": want < 0, ">=": want <= 0}
+                    for num in nums:
                         o = impl.outcome(f, obj, num)
-                        if o[0] != "ok" or bool(o[1]) != w:
-                            chk.violation("C13.ComparisonNotByMagnitude", {**k, "sym": sym, "with": "number"}, {**det, "got": repr(o[1])})
+                        if o[0] != "ok" or bool(o[1]) != exp[sym]:
+                            chk.violation("C13.ComparisonNotByMagnitude", {**k, "sym": sym, "with": type(num).__name__}, {**det, "got": repr(o[1])})
+                        o = impl.outcome(f, num, obj)          # the number on the left: Python falls back to the reflected method
+                        if o[0] != "ok" or bool(o[1]) != rexp[sym]:
+                            chk.violation("C13.ComparisonNotByMagnitude", {**k, "sym": sym, "with": type(num).__name__ + " on the left"},
+                                          {**det, "got": repr(o[1])})
             elif a == "Hash":
                 o = impl.outcome(hash, obj)
                 if o[0] != "ok":
